@@ -153,7 +153,8 @@ pub fn gen_spec(r: &mut Rng, mix: u8, for_adversary: bool) -> MsgSpec {
 		9 => MsgSpec::Shutdown { len: r.below(40) as u8, seed },
 		10 | 11 => MsgSpec::Htlcs {
 			kind: r.below(3) as u8,
-			n: 1 + r.below(3) as u8,
+			// n = 0: a commitment_signed on its own (also as the very first message of a connection)
+			n: r.below(4) as u8,
 			sigs: if big { r.below(484) as u16 } else { r.below(6) as u16 },
 			seed,
 		},
@@ -218,6 +219,7 @@ fn gen_adv_inner(r: &mut Rng, wd: &World, ci: usize) -> Option<AdvMsg> {
 			0..=5 => AdvMsg::Init { feat_seed: seed, unknown_even: r.chance(1, 8), net: r.below(3) as u8 },
 			6 => AdvMsg::Frame { ty: known, len: small_len(r), seed },
 			7 => AdvMsg::Std { spec: gen_spec(r, 0, true) },
+			9 => AdvMsg::Std { spec: MsgSpec::Htlcs { kind: 0, n: 0, sigs: r.below(4) as u16, seed } },
 			8 => AdvMsg::Frame { ty: unknown_odd, len: small_len(r), seed },
 			_ => AdvMsg::Short { len: r.below(2) as u8 },
 		});
